@@ -83,7 +83,11 @@ as_integer() const {
     return _u._integer;
 
   case RT_real:
-    return (int)_u._real;
+    // Converting an out-of-range value (or NaN) to int is undefined.
+    if (_u._real >= -2147483648.0 && _u._real <= 2147483647.0) {
+      return (int)_u._real;
+    }
+    return 0;
 
   case RT_pointer:
     // We don't mind if this loses precision.
@@ -770,7 +774,8 @@ evaluate() const {
       return Result(~r1.as_integer());
 
     case UNARY_MINUS:
-      return (r1._type == RT_real) ? Result(-r1.as_real()) : Result(-r1.as_integer());
+      // Negate in unsigned arithmetic; negating INT_MIN is undefined.
+      return (r1._type == RT_real) ? Result(-r1.as_real()) : Result((int)(0u - (unsigned int)r1.as_integer()));
 
     case UNARY_PLUS:
       return r1;
@@ -783,31 +788,43 @@ evaluate() const {
       if (r1._type == RT_real || r2._type == RT_real) {
         return Result(r1.as_real() * r2.as_real());
       } else {
-        return Result(r1.as_integer() * r2.as_integer());
+        return Result((int)((unsigned int)r1.as_integer() * (unsigned int)r2.as_integer()));
       }
 
     case '/':
       if (r1._type == RT_real || r2._type == RT_real) {
         return Result(r1.as_real() / r2.as_real());
       } else {
-        return Result(r1.as_integer() / r2.as_integer());
+        int divisor = r2.as_integer();
+        if (divisor == 0 || (divisor == -1 && r1.as_integer() == INT_MIN)) {
+          // Not a valid constant expression.
+          return Result();
+        }
+        return Result(r1.as_integer() / divisor);
       }
 
     case '%':
-      return Result(r1.as_integer() % r2.as_integer());
+      {
+        int divisor = r2.as_integer();
+        if (divisor == 0 || (divisor == -1 && r1.as_integer() == INT_MIN)) {
+          // Not a valid constant expression.
+          return Result();
+        }
+        return Result(r1.as_integer() % divisor);
+      }
 
     case '+':
       if (r1._type == RT_real || r2._type == RT_real) {
         return Result(r1.as_real() + r2.as_real());
       } else {
-        return Result(r1.as_integer() + r2.as_integer());
+        return Result((int)((unsigned int)r1.as_integer() + (unsigned int)r2.as_integer()));
       }
 
     case '-':
       if (r1._type == RT_real || r2._type == RT_real) {
         return Result(r1.as_real() - r2.as_real());
       } else {
-        return Result(r1.as_integer() - r2.as_integer());
+        return Result((int)((unsigned int)r1.as_integer() - (unsigned int)r2.as_integer()));
       }
 
     case '|':
@@ -887,10 +904,24 @@ evaluate() const {
       }
 
     case LSHIFT:
-      return Result(r1.as_integer() << r2.as_integer());
+      {
+        int count = r2.as_integer();
+        if (count < 0 || count >= (int)(sizeof(int) * 8)) {
+          // Not a valid constant expression.
+          return Result();
+        }
+        return Result((int)((unsigned int)r1.as_integer() << count));
+      }
 
     case RSHIFT:
-      return Result(r1.as_integer() >> r2.as_integer());
+      {
+        int count = r2.as_integer();
+        if (count < 0 || count >= (int)(sizeof(int) * 8)) {
+          // Not a valid constant expression.
+          return Result();
+        }
+        return Result(r1.as_integer() >> count);
+      }
 
     case '?':
       return r1.as_integer() ?
